@@ -277,9 +277,15 @@ func c10CheckConn(c C10Conn) *pbt.Violation {
 	cb.SetCipher(CFB8.NewCFB8Encrypt(blk, key), CFB8.NewCFB8Decrypt(blk, key))
 	ca.SetThreshold(c.Threshold)
 	cb.SetThreshold(c.Threshold)
+	// the SAME packet values (same Data slices) are written to every connection they go to - a server relays one
+	// packet to many players; whatever a connection does to the bytes on their way out must not touch the packet
+	pkts := make([]pk.Packet, len(c.Frames))
+	for i, f := range c.Frames {
+		pkts[i] = pk.Packet{ID: f.ID, Data: f.payload()}
+	}
 	run := func(from, to *mcnet.Conn, fromEnd *iox.Duplex, dir string) *pbt.Violation {
-		for i, f := range c.Frames {
-			if err := from.WritePacket(pk.Packet{ID: f.ID, Data: f.payload()}); err != nil {
+		for i := range c.Frames {
+			if err := from.WritePacket(pkts[i]); err != nil {
 				return pbt.V("c10.conn.write", "encrypted connection", "%s WritePacket #%d: %v", dir, i, err)
 			}
 		}
@@ -320,7 +326,12 @@ func c10CheckConn(c C10Conn) *pbt.Violation {
 			return v
 		}
 	}
-	// the bytes on the wire must not be the plain frames
+	for i, f := range c.Frames {
+		if pkts[i].ID != f.ID || !bytes.Equal(pkts[i].Data, f.payload()) {
+			return pbt.V("c10.conn.sender-packet-changed", "delivers every packet intact (a packet that was sent is still the packet: it may be sent again, to this or another connection)",
+				"packet #%d (%d bytes, thr %d) was modified by WritePacket on an encrypted connection%s", i, f.Len, c.Threshold, firstDiff(pkts[i].Data, f.payload()))
+		}
+	}
 	return nil
 }
 
@@ -330,7 +341,7 @@ var c10Conn = pbt.Register(pbt.Prop[C10Conn]{
 		c := C10Conn{Seed: rapid.Uint64().Draw(t, "seed"), Threshold: rapid.SampledFrom([]int{-1, 0, 64, 256}).Draw(t, "thr")}
 		for i, n := 0, rapid.IntRange(1, 40).Draw(t, "nframes"); i < n; i++ {
 			id := genID(t)
-			c.Frames = append(c.Frames, C07Frame{ID: id, Len: genLen(t, c.Threshold, id, false) % 3000, Kind: rapid.IntRange(0, 2).Draw(t, "kind"), Seed: rapid.Byte().Draw(t, "fseed")})
+			c.Frames = append(c.Frames, C07Frame{ID: id, Len: genLen(t, c.Threshold, id, false) % 9000, Kind: rapid.IntRange(0, 2).Draw(t, "kind"), Seed: rapid.Byte().Draw(t, "fseed")})
 		}
 		c.Chunk = rapid.SampledFrom([]int{0, 1, 5, 16, 17, 33, 100}).Draw(t, "chunk")
 		c.BothWays = rapid.Bool().Draw(t, "both")
